@@ -318,7 +318,9 @@ def c16(run):
     run.design_check("JoinProcModel", workers=8)
     t = run.record("join", "requests", n=T(run, 240, 6000))
     run.validate("join", t, "Trace_join", label="(V) join/rejoin requests through the real http.Handler, sequential and concurrent batches", chunk=T(run, 15, 100))
-    run.require_kinds("join/joinsrv")
+    t = run.record("join", "misc", n=T(run, 200, 5000))
+    run.validate("join", t, "Trace_join", label="(V) HomeNSReq flow and malformed requests", chunk=5000)
+    run.require_kinds("join/joinsrv", "join/homens", "join/joinbad")
     run.rc = run.finish(assumptions=["independent device / NS / AS model spec/lorawan/JoinProc.tla with AES, AES-CMAC and RFC 3394 in TLA+",
                                      "CFLists in requests are spec-valid (mask type: RFU bytes zero); rejoin-requests with OptNeg clear and rejoin-requests with a wrong MIC are DON'T-CARE beyond the result code",
                                      "the KEK label of the NS is the request's SenderID"])
@@ -379,6 +381,14 @@ PROPS = {"C01": c01, "C10": c10, "C09": c09, "C16": c16, "C17": c17, "C18": c18,
 
 
 def replay(run, path):
-    print("replay: re-run `bin/check %s` with VERIF_SEED=%s; stored event:" % (run.prop, json.load(open(path)).get("seed")))
-    print(json.dumps(json.load(open(path))["event"])[:2000])
-    return 0
+    """Re-executes the check deterministically with the seed and tier stored in the replay file (all
+    generators are seeded, TLC exhaustive runs are deterministic) and reports whether the stored
+    violation (same family, same clauses) shows again on the current tree."""
+    d = json.load(open(path))
+    run.seed, run.tier = int(d.get("seed", 1)), d.get("tier", "quick")
+    print("replay: property=%s seed=%d tier=%s stored clauses=%s stored event:" % (run.prop, run.seed, run.tier, ",".join(d.get("clauses", []))))
+    print(json.dumps(d["event"])[:1500])
+    PROPS[run.prop](run)
+    again = [f for f in run.fails if f[0] == d.get("family") and set(d.get("clauses", [])) <= set(f[2])]
+    print("replay: %s (%d matching failing events in this run)" % ("REPRODUCED" if again else "not reproduced on the current tree", len(again)))
+    return run.rc
